@@ -22,10 +22,11 @@ def gen(pid, thorough):
     plan = PLAN[pid]
     scripts = []
     st = {"states": 0, "transitions": 0}
-    for cfg in plan["mc"] + (plan.get("mc_thorough", []) if thorough else []):
+    mcs = [(plan["module"], cfg) for cfg in plan["mc"] + (plan.get("mc_thorough", []) if thorough else [])] + plan.get("extra_mc", [])
+    for module, cfg in mcs:
         sink = []
-        r = vlib.run_tlc(pid, "mc_" + cfg[:-4], SPEC, plan["module"], cfg, timeout=1800, line_sink=sink.append)
-        vlib.tlc_must_pass(r, "%s %s" % (plan["module"], cfg))
+        r = vlib.run_tlc(pid, "mc_" + cfg[:-4], SPEC, module, cfg, timeout=1800, line_sink=sink.append)
+        vlib.tlc_must_pass(r, "%s %s" % (module, cfg))
         st["states"] += r.distinct
         st["transitions"] += r.generated
         cap = CAP["thorough" if thorough else "quick"]
@@ -33,7 +34,7 @@ def gen(pid, thorough):
         if len(sink) > cap:
             step = len(sink) / float(cap)
             sink = [sink[int(k * step)] for k in range(cap)]
-        log("%s %s: %d generated / %d distinct states, %.1fs, %d scripts (%d kept)" % (plan["module"], cfg, r.generated, r.distinct, r.wall, total, len(sink)))
+        log("%s %s: %d generated / %d distinct states, %.1fs, %d scripts (%d kept)" % (module, cfg, r.generated, r.distinct, r.wall, total, len(sink)))
         scripts += sink
     for cfg, depth, nq, nt in plan["sim"]:
         n = nt if thorough else nq
@@ -107,7 +108,9 @@ def drive(pid, binp, scripts, work, V):
     return traces
 
 
-PLAN["C08"] = {"module": "Salts", "mc": [], "sim": [("Salts_sim.cfg", 15, 150, 1500)]}
+PLAN["C08"] = {"module": "Salts", "mc": [], "sim": [("Salts_sim.cfg", 15, 150, 1500)],
+               # id allocation / seqno counter as one critical section: attempted schedules through the id source
+               "extra_mc": [("MsgSeq", "MsgSeq_mc.cfg")]}
 PLAN["C07"] = {"module": "MsgHdr", "mc": ["MsgHdr_mc.cfg"], "sim": [("MsgHdr_sim.cfg", 7, 100, 1500)]}
 
 
